@@ -78,6 +78,26 @@ def _hashes():
     return {k: getattr(device_attrs, k + '_password_hash') for k in ('admin', 'normal', 'viewonly')}
 
 
+def _creds(passwords):
+    """credentials acceptance: for each API user, which of the candidate passwords the hub accepts right now - a
+    consumer's Authorization header (JWT signed with the password hash, made by the repo's own make_auth_header) goes
+    through the repo's parse_auth_header with the hub's password lookup, as web/base.py does for every request"""
+    import hashlib
+    from qtoggleserver.core.api import auth as core_api_auth
+    res = {}
+    for usr in ('admin', 'normal', 'viewonly'):
+        acc = []
+        for pw in passwords:
+            hdr = core_api_auth.make_auth_header(core_api_auth.ORIGIN_CONSUMER, usr, hashlib.sha256(pw.encode()).hexdigest())
+            try:
+                acc.append(core_api_auth.parse_auth_header(hdr, core_api_auth.ORIGIN_CONSUMER,
+                                                           core_api_auth.consumer_password_hash_func) == usr)
+            except core_api_auth.AuthError:
+                acc.append(False)
+        res[usr] = acc
+    return res
+
+
 async def _run_op(op):
     from qtoggleserver.core.api.funcs import ports as f_ports, device as f_device
     from qtoggleserver.slaves.api.funcs import devices as f_devices
@@ -97,6 +117,14 @@ async def _run_op(op):
             await _settle(3)
         elif kind == 'dev':
             await f_device.patch_device(h, copy.deepcopy(op[1]))
+        elif kind == 'devput':
+            # PUT /device (restore of a backup): GET /device is fed back, with the modifications of the case
+            mods = op[1] or {}
+            doc = json.loads(json.dumps(await f_device.get_device(FakeHandler(method='GET'))))
+            for n in mods.get('drop', []):
+                doc.pop(n, None)
+            doc.update(copy.deepcopy(mods.get('set', {})))
+            await f_device.put_device(FakeHandler(method='PUT'), doc)
         elif kind == 'sadd':
             await f_devices.post_slave_devices(FakeHandler(method='POST'), copy.deepcopy(op[1]))
             await _settle(2)
@@ -186,6 +214,7 @@ async def _amain(spec, out):
     out['boot'] = await _dump()
     out['boot_vals'] = _vals()
     out['boot_hashes'] = _hashes()
+    out['boot_creds'] = _creds(spec.get('passwords', ['']))
     out['boot_writes'] = list(ports_c07.WRITES)          # ... plus those of the first polling passes
     out['op_results'] = []
     out['op_vals'] = []
@@ -199,6 +228,7 @@ async def _amain(spec, out):
     out['final'] = await _dump()
     out['final_vals'] = _vals()
     out['final_hashes'] = _hashes()
+    out['final_creds'] = _creds(spec.get('passwords', ['']))
     for f in ('cleanup_main', 'cleanup_ports', 'cleanup_slaves', 'cleanup_reverse', 'cleanup_webhooks',
               'cleanup_device', 'cleanup_history', 'cleanup_sessions', 'cleanup_events', 'cleanup_peripherals',
               'cleanup_persist', 'cleanup_system'):
